@@ -367,6 +367,28 @@ fn c02(a: &Args) -> Report {
     alt_config(&mut s);
     s.wcfg.allow_duplicates = false;
     specs.push(s);
+    // versions of one key that span several leaf blocks of an on-disk index: 1000-byte keys (three
+    // headers per leaf), the largest key of a closed blob carries five versions and a marker
+    {
+        let big = vec![
+            Op::w(0, 1),
+            Op::w(1, 1),
+            Op::Write { k: 2, ts: 1, meta: Some(1), size: 24 },
+            Op::w(2, 2),
+            Op::Write { k: 2, ts: 3, meta: Some(2), size: 24 },
+            Op::w(2, 4),
+            Op::w(2, 5),
+            Op::Rot,
+        ];
+        let alphabet = vec![Op::Delete { k: 2, ts: 3, oip: true, meta: 0 }, Op::Write { k: 2, ts: 6, meta: Some(1), size: 24 }, Op::w(1, 2), Op::Rot, Op::Rst];
+        let mut s = SeqSpec::new("C02/big-index/L1000", alphabet, if thorough { 4 } else { 3 });
+        s.prefix = big;
+        s.key_len = 1000;
+        s.metas = vec![0, 1, 2];
+        s.keys = vec![0, 1, 2];
+        s.checks = Checks { outcome: true, latest: true, history: true, ..Default::default() };
+        specs.push(s);
+    }
     let results = run_specs(&specs, a, &no_known);
     seq_report("C02", a, "model_checking", results, SEQ_RULE)
 }
@@ -772,6 +794,21 @@ fn c15(a: &Args) -> Report {
             specs.push(s);
         }
     }
+    // eleven closed blobs + the active one: ids reach two digits, per-blob counts differ
+    {
+        let mut prefix = Vec::new();
+        for i in 0..11u8 {
+            for _ in 0..=(i % 3) {
+                prefix.push(Op::w(i % 2, 1));
+            }
+            prefix.push(Op::Rot);
+        }
+        let mb = vec![Op::w(0, 1), Op::d(1, 2), Op::Rot, Op::Rst, Op::RstLazy, Op::TryClose, Op::TryRestore];
+        let mut s = SeqSpec::new("C15/seq/many-blobs", mb, if thorough { 4 } else { 3 });
+        s.prefix = prefix;
+        s.checks = Checks { accounting: true, ..Default::default() };
+        specs.push(s);
+    }
     let results = run_specs(&specs, a, &no_known);
     let mut rep = seq_report("C15", a, "model_checking", results, SEQ_RULE);
     // concurrent histories: several operations that need an active blob queue behind a close (or a
@@ -1160,6 +1197,21 @@ fn c08_instances(thorough: bool) -> Vec<SchedSpec> {
             // more kind of notification competes for the channel
             s.name = format!("C08/backpressure/cap{cap}/{mode:?}/syncing");
             s.wcfg.max_dirty = Some(0);
+            specs.push(s);
+        }
+    }
+    // back-pressure from deletes into a closed blob (each registers a deferred index dump) while
+    // a blob switch is requested
+    for cap in [1usize, 2] {
+        for mode in [IoMode::Inplace, IoMode::Background] {
+            let mut clients: Vec<Vec<COp>> = (0..cap + 2).map(|i| vec![COp::D { k: i as u8, ts: 20 + i as u64 }]).collect();
+            clients.push(vec![COp::M(Op::Rot)]);
+            let prefix: Vec<Op> = (0..cap + 2).map(|i| Op::w(i as u8, 1)).chain([Op::Rot]).collect();
+            let mut s = SchedSpec::new(&format!("C08/backpressure/cap{cap}/{mode:?}/deletes"), mode, prefix, clients);
+            s.channel_capacity = Some(cap);
+            s.keys = vec![0, 1, 2];
+            s.bound = if thorough { 3 } else { 2 };
+            s.max_execs = if thorough { 100_000 } else { 20_000 };
             specs.push(s);
         }
     }
